@@ -182,10 +182,38 @@ theorem startsNegation_sym (l rest : List Char) (h : SymName l) (hne : l ≠ ['n
   · refine startsNegation_short l rest h1 ?_ hr
     rcases h with ⟨c, w, rfl, _, _⟩ | ⟨c, w, rfl, _, _⟩ <;> simp
 
+/-- a name other than `not`, followed by a non-identifier character, is not the word `not` -/
+theorem startsNotWord_name (l rest : List Char) (hl : ∀ x ∈ l, isIdChar x = true) (hne0 : l ≠ [])
+    (hne : l ≠ ['n', 'o', 't']) (hr : NoId rest) : startsNotWord (l ++ rest) = false := by
+  unfold startsNotWord
+  split
+  · rename_i rest' heq
+    match l, hl, hne0, hne with
+    | [a], _, _, _ =>
+      simp only [List.cons_append, List.nil_append, List.cons.injEq] at heq
+      have h1 : isIdChar 'o' = false := hr 'o' _ heq.2
+      exact absurd h1 (by decide)
+    | [a, b], _, _, _ =>
+      simp only [List.cons_append, List.nil_append, List.cons.injEq] at heq
+      have h1 : isIdChar 't' = false := hr 't' _ heq.2.2
+      exact absurd h1 (by decide)
+    | [a, b, c], _, _, hne =>
+      simp only [List.cons_append, List.nil_append, List.cons.injEq] at heq
+      obtain ⟨rfl, rfl, rfl, _⟩ := heq
+      exact absurd rfl hne
+    | a :: b :: c :: d :: w, hl, _, _ =>
+      simp only [List.cons_append, List.cons.injEq] at heq
+      obtain ⟨_, _, _, rfl⟩ := heq
+      simp [hl d (by simp)]
+  · rfl
+
+theorem SymName.ne_nil' {l : List Char} (h : SymName l) : l ≠ [] := by
+  rcases h with ⟨c, w, rfl, _, _⟩ | ⟨c, w, rfl, _, _⟩ <;> simp
+
 theorem lexSymbol_append (l rest : List Char) (h : SymName l) (hne : l ≠ ['n', 'o', 't']) (hr : NoId rest) :
     lexSymbol (l ++ rest) = some (l, rest) := by
   unfold lexSymbol
-  rw [startsNegation_sym l rest h hne hr]
+  rw [startsNotWord_name l rest h.idChars (SymName.ne_nil' h) hne hr]
   simp only [Bool.false_eq_true, if_false]
   rcases h with ⟨c, w, rfl, hc, hw⟩ | ⟨c, w, rfl, hc, hw⟩
   · obtain ⟨t1, t2⟩ := takeWhile_append_stop (p := isIdChar) hw hr
